@@ -80,7 +80,7 @@ func VerifC06_Slots() {
 		body += src2
 	}
 	body += `</div>`
-	out, err := zzRender(NewFS(zzC06FS()), body, map[string]any{"outer": "OUT", "nv": 9})
+	out, err := zzRenderVia(zzEntry(), zzC06FS(), nil, body, map[string]any{"outer": "OUT", "nv": 9})
 	flat := zzFlat(out)
 	zzNote("template", body)
 	zzNote("out", flat)
@@ -180,7 +180,7 @@ func VerifC06_Loop() {
 		want += `</ul>`
 		data["rows"] = rows
 		body = `<template include="flags.vuego"><template #default="p"><b style="color:red" v-show="p.row.on" :title="p.row.id">{{ p.row.id }}</b></template></template>`
-		out, err := zzRender(NewFS(zzC06FS()), body, data)
+		out, err := zzRenderVia(zzEntry(), zzC06FS(), nil, body, data)
 		zzNote("template", body)
 		zzNote("out", out)
 		zzAssert(err == nil, "C06.loop.render-error")
@@ -218,7 +218,7 @@ func VerifC06_Loop() {
 		body = `<template include="wrap.vuego"></template>`
 		want = `<section class="wrap"><div class="card"><header>INNER-H</header><main>FB-D</main><footer>FB-F</footer></div>FB-WRAP</section>`
 	}
-	out, err := zzRender(NewFS(zzC06FS()), body, data)
+	out, err := zzRenderVia(zzEntry(), zzC06FS(), nil, body, data)
 	flat := zzFlat(out)
 	zzNote("template", body)
 	zzNote("out", flat)
